@@ -151,6 +151,7 @@ def run_hypothesis(ctx, strategy, fn, max_examples, shrink=True, salt="", max_ro
     if shrink:
         phases.append(Phase.shrink)
     remaining = max_examples
+    t_start = time.time()
     batch_no = 0
     found = 0
     batch = getattr(ctx.mod, "BATCH", 400)
@@ -184,6 +185,7 @@ def run_hypothesis(ctx, strategy, fn, max_examples, shrink=True, salt="", max_ro
             ctx.inconclusive += 1
             ctx.extra.setdefault("flaky", []).append(str(e)[:500])
             remaining -= n
+    ctx.extra["max_layer_seconds_" + (salt or "main")] = round(time.time() - t_start, 1)
     if remaining > 0 and found < max_rootcauses:
         ctx.extra["cases_not_run_time_guard"] = ctx.extra.get("cases_not_run_time_guard", 0) + remaining
 
@@ -341,7 +343,9 @@ def merge(mod, tier, seed, results, corpus_viols, ncorpus, wall):
             if len(samples) < 5:
                 samples.append(s)
         for k, v in r["extra"].items():
-            if isinstance(v, (int, float)):
+            if isinstance(v, (int, float)) and k.startswith("max_"):
+                extra[k] = max(extra.get(k, 0), v)
+            elif isinstance(v, (int, float)):
                 extra[k] = extra.get(k, 0) + v
             elif isinstance(v, list):
                 extra.setdefault(k, [])
